@@ -1,6 +1,6 @@
 """Generators and implementation-side oracles shared by the STUN checks (C04, C05, C06, C07).
 A case is one program line for harness/stun_h.c / ocaml/stun_driver.ml (see stun_h.c for the ops)."""
-import hashlib, hmac, struct, zlib
+import hashlib, hmac, re, struct, zlib
 import vlib, tabgen
 from stun_gen import *
 
@@ -342,11 +342,19 @@ def toks(out):
     """split an output line into per-op token groups"""
     ws = out.split()
     groups, cur = [], None
+    in_dump = False          # inside the message dump that follows a successful "v=": it has its own f= / a= / ... tokens and ends with K=
     for w in ws[1:]:
+        if in_dump:
+            cur.append(w)
+            if w.startswith("K="):
+                in_dump = False
+            continue
         if w.split("=")[0] in ("vf", "vl", "v", "i", "a", "f", "fg") or w in ("sw", "FAULT") or w.startswith("?"):
             cur = [w]; groups.append(cur)
         elif cur is not None:
             cur.append(w)
+            if cur[0].startswith("v=") and len(cur) == 3 and re.match(r"^c\d+$", w):
+                in_dump = True
     return groups
 
 
@@ -434,7 +442,10 @@ def oracle(line, out, want=("C04", "C05", "C06", "C07")):
             b = last_built[0] if op[3] == "@" and last_built else unhx(op[3]) if op[3] != "@" else b""
             p = parse(b, not padded)
             d = {}
-            for w in g[2:]:
+            # dump layout: v= n<k> c<cls> m<meth> k<cookie> then one "<hex type>=<off>:<len>|n" per dumped type (DUMP_TYPES + the extra one),
+            # then the typed accessors e= p= g= f= s= a= x= y= K=  (their one-letter keys may collide with hex types such as 0xa, 0xe, 0xf)
+            ntypes = len(DUMP_TYPES) + 1
+            for w in g[5:5 + ntypes]:
                 if "=" in w:
                     k, v = w.split("=", 1); d[k] = v
             if "C05" in want and st not in (1, 2):
